@@ -132,6 +132,22 @@ def run(res, tier, br, model_ok=True, search=False):
         parts = [sh.replace("@", f"f{i}") for i, (_, sh) in enumerate(rng.sample(FUNC_SHAPES, 4))] + rng.sample(shapes9, 3)
         rng.shuffle(parts)
         hand.append((f"hand9_{v}.c", "\n".join(parts)))
+    # what a file may START with, and what it may END with: every kind of first line directly followed by the next
+    # definition (no line in between) — a declarator whose brace comes after preprocessor lines, a declaration, a
+    # prototype, a macro, a type —, a byte order mark or a form feed as the very first character, and globals of every
+    # spelling (implicit int too) as the last statement before an appended function
+    f1 = "int\tf1(int a)\n{\n\treturn (a);\n}\n"
+    firsts = ["int\tft_first(int n)\n#ifdef WIDE\n# define W 1\n#endif\n{\n\treturn (n);\n}\n", "int\tft_first(int n)\n#define W 1\n{\n\treturn (n);\n}\n",
+              "int\tg_a;\n", "static int\tproto(int a);\n", "#define N 3\n", "typedef int\tt_n;\n", "enum e_k\n{\n\tAA\n};\n", "extern char\t**environ;\n", "#include <unistd.h>\n"]
+    for k, fs in enumerate(firsts):
+        hand.append((f"hand10_{k}.c", fs + f1))
+        if big or k % 3 == rng.randrange(3):
+            hand.append((f"hand10_{k}b.c", fs + "\n" + f1))
+    for k, lead in enumerate(["\ufeff", "\f", "\ufeff ", " ", "\t"]):
+        hand.append((f"hand11_{k}.c", lead + "int\tg_a = 1;  \n\n" + f1))
+    for k, g in enumerate(["unsigned\tg_u;\n", "static\tg_count;\n", "const\tg_c;\n", "unsigned int\tg_v;\n", "long\tg_l = 3;\n", "int\tg_t[2];\n", "char\t*g_s;\n",
+                           "struct s_p\tg_p;\n", "extern int\tg_e;\n", "t_list\t*g_lst;\n"]):
+        hand.append((f"hand12_{k}.c", f1 + "\n" + g))
     nhand = len(hand)
     hand += [(n, s_) for n, s_ in (families.repo_samples() if big else families.repo_samples()[::3])
              if not s_.startswith("/* ****") and not s_.startswith("\n") and s_.strip()]
@@ -154,7 +170,8 @@ def run(res, tier, br, model_ok=True, search=False):
             res.report("header:shift", f"{name}: with header+blank line: unexpected {[x for x in d1 if x not in want][:3]}, missing {[x for x in want if x not in d1][:3]}",
                        {"kind": "header12", "name": name, "src": src})
         # a comment line at every top-level insertion point (brace depth 0, not inside a statement that continues)
-        if o0 == "ok":
+        implicit_last = name in ("hand12_0.c", "hand12_1.c", "hand12_2.c")     # `unsigned g_u;` etc. as the last statement
+        if o0 == "ok" and not implicit_last:
             ls = src.split("\n")
             depth, points = 0, []
             # "between two top-level definitions": below the first definition (the comments a file starts with are
@@ -177,12 +194,12 @@ def run(res, tier, br, model_ok=True, search=False):
                     res.report("comment-line:shift", f"{name}: comment line inserted above line {at}: outcome {o3}, unexpected {extra3[:3]}, missing {missing3[:3]}",
                                {"kind": "comment-line", "name": name, "src": src, "at": at, "comment": cm})
         fn = "\nint\tzz_extra(int a)\n{\n\treturn (a);\n}\n"
-        if (("\n" + src).count("\n{\n") >= 5 or name.endswith(".h") or not src.endswith("}\n")
+        if (("\n" + src).count("\n{\n") >= 5 or name.endswith(".h") or not src.endswith(("}\n", ";\n"))
                 or any(x[1] == "TOO_MANY_FUNCS" for x in d0)):
             continue        # appending is only claimed for files with fewer than five functions
         o2, d2, _ = meta.diags(name, src + fn)
         if o0 == "ok" and (o2 != "ok" or d2 != d0):
-            res.report("append:changed", f"{name}: appending a conforming function: new {[x for x in d2 if x not in d0][:3]}, gone {[x for x in d0 if x not in d2][:3]}",
+            res.report("append:changed@implicit-int-global-last" if implicit_last else "append:changed", f"{name}: appending a conforming function: new {[x for x in d2 if x not in d0][:3]}, gone {[x for x in d0 if x not in d2][:3]}",
                        {"kind": "append", "name": name, "src": src, "appended": fn})
     res.sample({"header": cases[0][0] if cases else None})
 
